@@ -319,22 +319,32 @@ theorem assembly_ignores (pre post : List Bank) (b : Bank) (nm : BankName.Name)
 
 /-- A concrete accepted event: the TRG example packet of the documentation and an anode-wire bank
 `C095` holding the 66-sample example packet of board 09, channel 5 (simulation run). -/
-example : Accepts 4294967295 [("C095", Adc.exampleLongSupp), ("ATAT", Trg.examplePacket)] := by
+theorem exampleEvent_accepts :
+    Accepts 4294967295 [("C095", Adc.exampleLongSupp), ("ATAT", Trg.examplePacket)] := by
   refine ⟨?_, by decide, by decide +kernel, ?_⟩
   · intro b hb
     simp only [List.mem_cons, List.not_mem_nil, or_false] at hb
     rcases hb with rfl | rfl
-    · refine ⟨⟨.adc32, 0, 5⟩, by decide, fun _ => ?_, fun h => by cases h, fun h => by cases h⟩
-      refine ⟨Adc.fields Adc.exampleLongSupp, 5, by decide +kernel, by decide +kernel,
-        by decide +kernel, fun _ => ?_⟩
-      exact ⟨20, 3000, 0x3ff0000000000000, 100, by decide +kernel, by decide +kernel,
-        by decide +kernel, by decide +kernel⟩
-    · exact ⟨⟨.trg, 0, 0⟩, by decide, fun h => by cases h, fun h => by cases h,
-        fun _ => ⟨Trg.fields Trg.examplePacket, by decide +kernel⟩⟩
+    · refine ⟨⟨.adc32, 0, 5⟩, by decide, fun _ => ?_, fun h => ?_, fun h => ?_⟩
+      · refine ⟨Adc.fields Adc.exampleLongSupp, 5, by decide +kernel, by decide +kernel,
+          by decide +kernel, fun _ => ?_⟩
+        exact ⟨10, 3000, 4607182418800017408, 100, by decide +kernel, by decide +kernel,
+          by decide +kernel, by decide +kernel⟩
+      · exact absurd h (by decide)
+      · exact absurd h (by decide)
+    · refine ⟨⟨.trg, 0, 0⟩, by decide, fun h => ?_, fun h => ?_, fun _ => ?_⟩
+      · exact absurd h (by decide)
+      · exact absurd h (by decide)
+      · exact ⟨Trg.fields Trg.examplePacket, by decide +kernel⟩
   · intro g hg
     have : groupsOf [("C095", Adc.exampleLongSupp), ("ATAT", Trg.examplePacket)] = [] := by
       decide +kernel
     rw [this] at hg; cases hg
+
+/-- Hence the hypothesis of `assembly_spec` is satisfiable (for every carrier and order). -/
+example : ∃ ev : Event α, buildEventWith ops order 4294967295
+    [("C095", Adc.exampleLongSupp), ("ATAT", Trg.examplePacket)] = .ok ev :=
+  ok_of_accepts ops exampleEvent_accepts order
 
 /-- The same two banks with the wire bank twice: the hypotheses of
 `assembly_rejects_duplicate_wire_bank` are satisfiable. -/
